@@ -180,6 +180,14 @@ def stepTranslate (ws : List String) : Option String :=
     some (match translateExcept (if decBool js then jsStrStrip else pyStripU) (decMap inm) [] (decStr text) with
       | .ok l => "ok " ++ encNats l
       | .error _ => "err unknown")
+  | ["tablevars", js, pfx, query, names, norm, width] =>
+    some (match tableVariablesMap (decBool js) (decStr query) ((decStr pfx).headD 'a') (if names == "N" then none else some (decList (names.drop 1).toString))
+              (decBool norm) (if width == "~" then none else some width.toNat!) with
+      | .ok m => encVarMap m
+      | .error .widthMismatch => "err width"
+      | .error (.var (.columnNotFound _)) => "err notfound"
+      | .error (.var (.badDirectName _)) => "err badname"
+      | .error (.var (.ambiguous _)) => "err ambiguous")
   | ["unquotestr", s] => some (match unquoteString (decStr s) with | some v => "S" ++ encStr v | none => "N")
   | _ => none
 
